@@ -31,3 +31,62 @@ Example d17_pinned_arms_refuted :
   cli_bad_chars_gen arms
   = [0; 1; 2; 3; 4; 5; 6; 7; 8; 11; 12; 14; 15; 16; 17; 18; 19; 20; 21; 22; 23; 24; 25; 26; 27; 28; 29; 30; 31].
 Proof. vm_compute. reflexivity. Qed.
+
+(* (2) every line written in -j mode is a well-formed JSON text: exactly the
+   one-key object of its kind, carrying the text / tags / choices / messages
+   it was given — whatever characters occur in them *)
+From Ink.Cli Require Import RenderProofs.
+Theorem rendered_lines_are_json :
+  forall f32_of_decimal (m : cli_msg),
+    JsonStd.parse_json f32_of_decimal (render_json m) = Some (JObj [(msg_key m, msg_payload m)]).
+Proof. exact rendered_lines_lemma. Qed.
+Check rendered_lines_are_json :
+  forall f32_of_decimal (m : cli_msg),
+    JsonStd.parse_json f32_of_decimal (render_json m) = Some (JObj [(msg_key m, msg_payload m)]).
+Print Assumptions rendered_lines_are_json.
+
+(* the failed-divert line as the pinned tree writes it (path interpolated raw)
+   is not JSON for the path consisting of one quote — whatever the arms are *)
+Theorem rendered_lines_are_json_refuted :
+  forall f32_of_decimal arms help_mode help_msg,
+    JsonStd.parse_json f32_of_decimal
+      (render_json_gen arms 0 help_mode help_msg (MDivertIssue [c_quote] [])) = None.
+Proof. exact divert_mode0_refuted. Qed.
+Check rendered_lines_are_json_refuted :
+  forall f32_of_decimal arms help_mode help_msg,
+    JsonStd.parse_json f32_of_decimal
+      (render_json_gen arms 0 help_mode help_msg (MDivertIssue [c_quote] [])) = None.
+Print Assumptions rendered_lines_are_json_refuted.
+
+(* (3) parse_input: 1-based numerals, `-> path`, quit/exit/help in any letter
+   case; nothing else is ever taken for a choice or a divert *)
+Theorem parse_input_spec :
+  (forall i, i < 18446744073709551615 -> parse_input (show_N (i + 1)) = IChoice i)
+  /\ (forall p, p <> [] -> no_ws p -> parse_input (T "-> " ++ p) = IDivert p)
+  /\ (forall t, (map ascii_lower t = T "quit" \/ map ascii_lower t = T "exit" -> parse_input t = IExit)
+               /\ (map ascii_lower t = T "help" -> parse_input t = IHelp))
+  /\ (forall t, (forall i, parse_input t = IChoice i -> parse_usize (trim t) = Some (i + 1))
+               /\ (forall p, parse_input t = IDivert p -> split_whitespace t = [T "->"; p])).
+Proof.
+  exact (conj parse_input_number (conj parse_input_divert (conj parse_input_keywords parse_input_sound))).
+Qed.
+Check parse_input_spec :
+  (forall i, i < 18446744073709551615 -> parse_input (show_N (i + 1)) = IChoice i)
+  /\ (forall p, p <> [] -> no_ws p -> parse_input (T "-> " ++ p) = IDivert p)
+  /\ (forall t, (map ascii_lower t = T "quit" \/ map ascii_lower t = T "exit" -> parse_input t = IExit)
+               /\ (map ascii_lower t = T "help" -> parse_input t = IHelp))
+  /\ (forall t, (forall i, parse_input t = IChoice i -> parse_usize (trim t) = Some (i + 1))
+               /\ (forall p, parse_input t = IDivert p -> split_whitespace t = [T "->"; p])).
+Print Assumptions parse_input_spec.
+
+(* (4) player_matches_library: SLOT — see the comment at the end of Cli/Escape.v;
+   covered by the differential check tools/props/c20.py until Shell/Story.v exists. *)
+
+(* non-vacuity *)
+Example rendered_choice_example :
+  msg_json (MChoices [(T "a", [T "x"])])
+  = JObj [(T "choices", JArr [JObj [(T "text", JStr (T "a")); (T "tags", JArr [JStr (T "x")]);
+                                    (T "tag_count", JInt 1)]])].
+Proof. reflexivity. Qed.
+Example parse_input_hyps_example : no_ws (T "knot.stitch") /\ T "knot.stitch" <> [].
+Proof. split; [repeat constructor|discriminate]. Qed.
